@@ -6,8 +6,6 @@ package client
 
 // (nil, nil) is a documented outcome (no redirect location / polling ended without token):
 // callers must not rely on the (value, nil) idiom.
-//@ func client.CallEndSessionEndpoint
-//@   requires valid(caller)
 //@ func client.PollDeviceAccessTokenEndpoint
 //@   requires valid(caller)
 
@@ -23,3 +21,11 @@ package client
 //@ func client.Discover
 //@   ensures issuer-matches: err == nil ==> result0 != nil && result0.Issuer == issuer
 //@   ensures fail-closed: err != nil ==> result0 == nil
+
+// ---- C20: the caller's (by default the package-level) *http.Client is not modified by a call.
+//@ func client.CallEndSessionEndpoint
+//@   requires valid(caller)
+//@   modifies os(caller), wallclock
+//@ func client.CallRevokeEndpoint
+//@   requires valid(caller)
+//@   modifies os(caller), wallclock
